@@ -143,7 +143,10 @@ def make_fitter(md, bands, law, av_range, distance_range_kpc=(1.0, 2.0), theta=N
     from astropy import units as u
     from sedfitter.fit import Fitter
     theta = np.ones(len(bands)) if theta is None else np.asarray(theta, float)
-    if by_wavelength:
+    if isinstance(by_wavelength, (list, tuple)):
+        # a filter list may mix names and wavelengths
+        filt = [(BAND_WAV[b] * u.micron) if w else b for b, w in zip(bands, by_wavelength)]
+    elif by_wavelength:
         # a wavelength is a length in any unit: micron for the first band, then mm, nm, micron, Angstrom, m in turn
         wunits = [u.micron, u.mm, u.nm, u.micron, u.AA, u.m]
         filt = [(BAND_WAV[b] * u.micron).to(wunits[i % len(wunits)]) for i, b in enumerate(bands)]
